@@ -149,6 +149,11 @@ class Session:
         # witnesses first: covers / canaries are tried on their bounded expansion (a `sat` there is genuine)
         pre = {}
         wit = [o for o in obls if o.expect == "sat"]
+        for o in wit:     # found by the generating process already
+            w = getattr(o, "witness", None)
+            if w:
+                pre[id(o)] = dict(result="sat", backend=f"z3+bounded-expansion(B={w['B']})", time_s=w["time_s"], reason="", log=[("z3 (generator process)", "sat", w["time_s"])])
+        wit = [o for o in wit if id(o) not in pre]
         if wit:
             qs = []
             for o in wit:
@@ -546,7 +551,16 @@ def _run_task(i):
         v = getattr(fn, "ver", None)
         if v is not None:
             extra = dict(fuc=dict(v.functions_under_contract), trace={k: set(map(str, s_)) for k, s_ in v.trace.items() if not k.startswith("_")})
-        return "ok", [o.stub() for o in obls], extra
+        # larger witness expansions only where vacuity is decided: the precondition cover and the first path cover of a function
+        deep, seen_fn = set(), set()
+        for o in obls:
+            if o.expect == "sat":
+                fn = o.id.rsplit("/", 1)[0]
+                if o.id.endswith("/cover-pre") or fn not in seen_fn:
+                    deep.add(id(o))
+                if not o.id.endswith("/cover-pre"):
+                    seen_fn.add(fn)
+        return "ok", [o.stub(deep=id(o) in deep) for o in obls], extra
     except Unsupported as e:
         return "unsupported", str(e), None
     except Exception as e:
